@@ -238,6 +238,27 @@ Example httpconv_append_refuted :
   logical (mem st 0) = [128; 1; 2]%Z.                                     (* so the first one now reads as the second *)
 Proof. split; [apply inv_init_with_input | vm_compute; repeat split; auto]. Qed.
 
+(* Value.MarshalTo (thrift and proto): by script marshalto_ok the result is a buffer of its own (CopyOut: a fresh id).
+   As patched by the seeded change C12-11 a full-cover target returns the SOURCE value's bytes: the result is the caller's
+   input buffer 0, not a buffer of its own, and changes as soon as the caller reuses its input. *)
+Definition h_marshalto_ok : list op :=
+  [Get 1 0 None []; Append 1 0 [7; 8]%Z; CopyOut 1 0; Put 1 0].
+Definition h_marshalto_alias : list op :=
+  [Get 1 0 None []; Borrow 1 6 0; ReturnDirect 1 6; Put 1 0].
+Definition caller_reuses_input : list op := [Borrow 9 0 0; Overwrite 9 0 [90; 90]%Z].
+
+Example marshalto_alias_refuted :
+  let st0 := init_with_input [7; 8]%Z in
+  Inv st0 /\ scripts_ok [marshalto_ok] = true /\ scripts_ok [buggy_marshalto_alias] = false /\
+  (* real script: the result is buffer 2 (fresh), the input is still the only other owned buffer; reuse of the input
+     by the caller does not touch the result *)
+  (let st := run st0 (h_marshalto_ok ++ caller_reuses_input) in
+   owned st = [2; 0] /\ obs_of 1 st = [[7; 8]%Z] /\ logical (mem st 2) = [7; 8]%Z /\ logical (mem st 0) = [90; 90]%Z) /\
+  (* patched script: the result IS the input (owned twice, no fresh buffer) and is overwritten with it *)
+  (let st := run st0 (h_marshalto_alias ++ caller_reuses_input) in
+   owned st = [0; 0] /\ obs_of 1 st = [[7; 8]%Z] /\ logical (mem st 0) = [90; 90]%Z).
+Proof. split; [apply inv_init_with_input | vm_compute; repeat split; auto]. Qed.
+
 (* the hypotheses of the theorems are satisfiable and the conclusions are not trivial: two interleaved calls (one
    failing and leaking, one succeeding), pool reuse with junk, a later call churning the pool *)
 Definition h_example : list op :=
